@@ -8,11 +8,13 @@
     the same verdict and objective", and the size of the rounding error of one
     scale / unscale round trip in binary64 (bound (6k+8) 2^-52 derived by counting roundings).
     [C19_save_exact_when_disabled] is stated for any arithmetic with x*1 = x, 1/1 = 1
-    ([UnitLaws]; inhabited by Z and R below); that binary64 satisfies x*1 = x is validated
-    bit-for-bit by the run (equilibration-off cases), not proved here. *)
+    ([UnitLaws]); binary64 satisfies these laws ([C19_mul_one_binary64], proved from the
+    primitive-float specification through Flocq's Bmult_correct; Coq's floats have a single
+    NaN, so the equality covers NaN too), hence [C19_save_exact_binary64] has no
+    arithmetic hypothesis left. *)
 From Coq Require Import List ZArith NArith String Floats Reals.
 Require Import Clarabel.Base.Ops Clarabel.Json.Model Clarabel.Json.Spec.
-Require Import Clarabel.Json.Lemmas Clarabel.Json.LemmasCodec Clarabel.Json.LemmasSave.
+Require Import Clarabel.Json.Lemmas Clarabel.Json.LemmasCodec Clarabel.Json.LemmasSave Clarabel.Json.LemmasFloat.
 
 (** document structure *)
 Theorem C19_decode_encode : stmt_decode_encode.
@@ -31,6 +33,12 @@ Theorem C19_save_undoes_equilibration : stmt_save_undoes_equilibration.
 Proof. exact (fun T O finf fmax d e c P q A b cones s F => @save_undoes_equilibration_ok T O finf fmax F d e c P q A b cones s). Qed.
 Theorem C19_save_exact_when_disabled : stmt_save_exact_when_disabled.
 Proof. exact (@save_exact_when_disabled_ok). Qed.
+Theorem C19_mul_one_binary64 : forall x : float, (x * 1)%float = x /\ (x * (1 / 1))%float = x.
+Proof. exact (fun x => conj (mul_one_r_binary64 x) (mul_recip_one_binary64 x)). Qed.
+Theorem C19_unit_laws_binary64 : UnitLaws OpsF.
+Proof. exact unit_laws_binary64. Qed.
+Theorem C19_save_exact_binary64 : stmt_save_exact_binary64.
+Proof. exact save_exact_binary64_ok. Qed.
 Theorem C19_field_laws_R : FieldLaws OpsR.
 Proof. exact field_laws_R. Qed.
 Theorem C19_unit_laws_R : UnitLaws OpsR.
@@ -53,6 +61,12 @@ Theorem C19_collapse_idempotent : stmt_collapse_idempotent.
 Proof. exact (@collapse_idempotent_ok). Qed.
 Theorem C19_collapse_nvars : stmt_collapse_nvars.
 Proof. exact (@collapse_nvars_ok). Qed.
+Theorem C19_collapse_identity_iff : stmt_collapse_identity_iff.
+Proof. exact (@collapse_identity_iff_ok). Qed.
+Theorem C19_cap_b_identity : stmt_cap_b_identity.
+Proof. exact (@cap_b_identity_ok). Qed.
+Theorem C19_b_literal_refuted : stmt_b_literal_refuted.
+Proof. exact b_literal_refuted_ok. Qed.
 Theorem C19_cones_literal_refuted : stmt_cones_literal_refuted.
 Proof. exact cones_literal_refuted_ok. Qed.
 
